@@ -27,6 +27,10 @@ import (
 
 var autoYieldPackages = []string{"pkg/state", "pkg/prompting"}
 
+// In these packages the interleaving points are system calls on a shared file
+// (the daemon lock): a yield before every statement that calls unix.Fcntl*.
+var autoYieldSyscallPackages = []string{"pkg/filesystem/locking"}
+
 const autoYieldImport = "import verifauto \"github.com/mutagen-io/mutagen/pkg/verif\"; "
 
 type insertion struct {
@@ -56,7 +60,11 @@ func autoYieldFiles(root, dir string, replace map[string]string) (int, error) {
 		return 0, err
 	}
 	sites := 0
-	for _, pkg := range autoYieldPackages {
+	for _, pkg := range append(append([]string{}, autoYieldPackages...), autoYieldSyscallPackages...) {
+		syscalls := false
+		for _, sp := range autoYieldSyscallPackages {
+			syscalls = syscalls || sp == pkg
+		}
 		names, _ := filepath.Glob(filepath.Join(repo, pkg, "*.go"))
 		sort.Strings(names)
 		for _, name := range names {
@@ -70,7 +78,7 @@ func autoYieldFiles(root, dir string, replace map[string]string) (int, error) {
 			if strings.Contains(string(src), "//go:build !verif") {
 				continue
 			}
-			out, n := instrument(name, src, strings.ReplaceAll(pkg, "pkg/", ""))
+			out, n := instrument(name, src, strings.ReplaceAll(pkg, "pkg/", ""), syscalls)
 			if n == 0 {
 				continue
 			}
@@ -88,7 +96,7 @@ func autoYieldFiles(root, dir string, replace map[string]string) (int, error) {
 	return sites, nil
 }
 
-func instrument(name string, src []byte, pkg string) (string, int) {
+func instrument(name string, src []byte, pkg string, syscalls bool) (string, int) {
 	fset := token.NewFileSet()
 	file, err := parser.ParseFile(fset, name, src, parser.ParseComments)
 	if err != nil {
@@ -111,28 +119,65 @@ func instrument(name string, src []byte, pkg string) (string, int) {
 				fname = id.Name + "." + fname
 			}
 		}
+		// Only statements that stand in a statement list are instrumented
+		// (text is inserted before or after them on the same line).
+		visit := func(list []ast.Stmt) {
+			for _, st := range list {
+				// The simple statement that may hold the call: the statement
+				// itself, or the initialiser of an if statement.
+				simple := st
+				if ifs, ok := st.(*ast.IfStmt); ok && ifs.Init != nil {
+					simple = ifs.Init
+				}
+				var call *ast.CallExpr
+				isExpr := false
+				switch x := simple.(type) {
+				case *ast.ExprStmt:
+					call, _ = x.X.(*ast.CallExpr)
+					isExpr = simple == st
+				case *ast.AssignStmt:
+					if len(x.Rhs) == 1 {
+						call, _ = x.Rhs[0].(*ast.CallExpr)
+					}
+				}
+				if call == nil {
+					continue
+				}
+				sel, ok := call.Fun.(*ast.SelectorExpr)
+				if !ok {
+					continue
+				}
+				if syscalls {
+					if x, ok := sel.X.(*ast.Ident); ok && x.Name == "unix" && strings.HasPrefix(sel.Sel.Name, "Fcntl") {
+						counter[fname]++
+						site := fmt.Sprintf("auto:%s.%s:before-syscall#%d", pkg, fname, counter[fname])
+						ins = append(ins, insertion{fset.Position(st.Pos()).Offset, fmt.Sprintf("verifauto.Yield(%q); ", site)})
+					}
+					continue
+				}
+				if !isExpr || len(call.Args) != 0 {
+					continue
+				}
+				switch sel.Sel.Name {
+				case "Lock", "RLock":
+					counter[fname]++
+					site := fmt.Sprintf("auto:%s.%s:before-lock#%d", pkg, fname, counter[fname])
+					ins = append(ins, insertion{fset.Position(st.Pos()).Offset, fmt.Sprintf("verifauto.Yield(%q); ", site)})
+				case "Unlock", "RUnlock":
+					counter[fname]++
+					site := fmt.Sprintf("auto:%s.%s:after-unlock#%d", pkg, fname, counter[fname])
+					ins = append(ins, insertion{fset.Position(st.End()).Offset, fmt.Sprintf("; verifauto.Yield(%q)", site)})
+				}
+			}
+		}
 		ast.Inspect(fn.Body, func(n ast.Node) bool {
-			es, ok := n.(*ast.ExprStmt)
-			if !ok {
-				return true
-			}
-			call, ok := es.X.(*ast.CallExpr)
-			if !ok || len(call.Args) != 0 {
-				return true
-			}
-			sel, ok := call.Fun.(*ast.SelectorExpr)
-			if !ok {
-				return true
-			}
-			switch sel.Sel.Name {
-			case "Lock", "RLock":
-				counter[fname]++
-				site := fmt.Sprintf("auto:%s.%s:before-lock#%d", pkg, fname, counter[fname])
-				ins = append(ins, insertion{fset.Position(es.Pos()).Offset, fmt.Sprintf("verifauto.Yield(%q); ", site)})
-			case "Unlock", "RUnlock":
-				counter[fname]++
-				site := fmt.Sprintf("auto:%s.%s:after-unlock#%d", pkg, fname, counter[fname])
-				ins = append(ins, insertion{fset.Position(es.End()).Offset, fmt.Sprintf("; verifauto.Yield(%q)", site)})
+			switch x := n.(type) {
+			case *ast.BlockStmt:
+				visit(x.List)
+			case *ast.CaseClause:
+				visit(x.Body)
+			case *ast.CommClause:
+				visit(x.Body)
 			}
 			return true
 		})
